@@ -91,6 +91,8 @@ type SetSys[T comparable] struct {
 	// a long argument list
 	Gen func(i int) T
 	N   int
+	// NoCtor: do not offer the variadic-constructor operations (jobs whose alphabet is reduced on purpose)
+	NoCtor bool
 }
 
 func (s *SetSys[T]) Name() string {
@@ -252,12 +254,23 @@ func (b *setBox[T]) Ops() []Op {
 	for ti := range b.sys.Tuples {
 		ops = append(ops, op("Remove", ti))
 	}
+	if len(b.ref) == 0 && !b.sys.NoCtor {
+		// constructor forms: New(values...) for every tuple (duplicates inside the argument list included)
+		for ti, t := range b.sys.Tuples {
+			if len(t) > 0 && !(b.sys.MaxSize > 0 && len(t) > b.sys.MaxSize) {
+				ops = append(ops, op("New", ti))
+			}
+		}
+	}
 	return append(ops, op("Clear"))
 }
 
 func (b *setBox[T]) Describe(o Op) string {
 	if o.N == "Clear" {
 		return "Clear()"
+	}
+	if o.N == "New" {
+		return fmt.Sprintf("replaced by New(%v...)", b.tuple(o.A[0]))
 	}
 	if b.sys.Gen != nil {
 		nm := "Add"
@@ -365,6 +378,19 @@ func (b *setBox[T]) Do(o Op) *Viol {
 	case "Clear":
 		b.a.clear()
 		b.ref, b.reps = nil, nil
+	case "New":
+		// a set built by the VARIADIC constructor takes the place of the (empty) one: same discipline as
+		// New() followed by Add(values...)
+		vs := b.tuple(o.A[0])
+		arg := argSlice(vs)
+		b.a = b.sys.newAPI(arg...)
+		if v := scribbleCheck(arg, b.sys.Poison, b.a.values, b.a.name, "New"); v != nil {
+			return v
+		}
+		b.ref, b.reps = nil, nil
+		for _, x := range vs {
+			b.refAdd(x)
+		}
 	default:
 		panic("set op " + o.N)
 	}
